@@ -64,7 +64,8 @@ func handleHTTP2Stream(http2Assembler *Http2Assembler, progress *api.ReadProgres
 	}
 
 	if item != nil {
-		if isGrpc {
+		// isGrpc describes the half that completed the pair; the other half counts as well
+		if isGrpc || isGrpcPair(item.Pair) {
 			item.Protocol = grpcProtocol
 		} else {
 			item.Protocol = http2Protocol
@@ -73,6 +74,21 @@ func handleHTTP2Stream(http2Assembler *Http2Assembler, progress *api.ReadProgres
 	}
 
 	return nil
+}
+
+// isGrpcPair reports whether the request or the response of a pair carries the gRPC markers.
+func isGrpcPair(pair *api.RequestResponsePair) bool {
+	if payload, ok := pair.Request.Payload.(HTTPPayload); ok {
+		if req, ok := payload.Data.(*http.Request); ok && isGrpcHeader(req.Header) {
+			return true
+		}
+	}
+	if payload, ok := pair.Response.Payload.(HTTPPayload); ok {
+		if res, ok := payload.Data.(*http.Response); ok && isGrpcHeader(res.Header) {
+			return true
+		}
+	}
+	return false
 }
 
 func handleHTTP1ClientStream(b *bufio.Reader, progress *api.ReadProgress, tcpID *api.TcpID, counterPair *api.CounterPair, captureTime time.Time, emitter api.Emitter, reqResMatcher *requestResponseMatcher) (switchingProtocolsHTTP2 bool, req *http.Request, err error) {
